@@ -314,6 +314,91 @@ def check_grids(res, tier):
                     res.violation("grid-order:" + geo, "poloidal_distance not strictly increasing in y inside region %s" % rid, {"spec": g["spec"]})
 
 
+def check_order_nonorth(res, tier):
+    """non-orthogonal grids: along every flux surface of every region the written points are in strictly increasing poloidal order (the
+    poloidal distance of each point is measured on the contour itself), for the contours that are not the region's own separatrix too"""
+    import gridlab
+
+    W2 = [(1.2, -0.5), (1.2, 0.5), (1.8, 0.5), (1.8, -0.5)]
+    specs = [gridlab.tokamak_spec("lsn", options={"orthogonal": False, "ny_inner_divertor": 6, "ny_outer_divertor": 8, "ny_sol": 16}, wall=W2, extract=["meshmeta"], timeout=900)]
+    if tier == "thorough":
+        specs.append(gridlab.tokamak_spec("cdn", options={"orthogonal": False, "ny_inner_divertor": 6, "ny_outer_divertor": 8, "ny_inner_sol": 8, "ny_outer_sol": 8},
+                                          extract=["meshmeta"], timeout=1500))
+    for g in gridlab.get(specs):
+        name = g["spec"]["geometry"] + "-nonorth-fine-ny"
+        res.case(key=("order", name), nontrivial=True, sample={"op": "poloidal order on a non-orthogonal grid", "grid": name})
+        if g["error"]:
+            res.extra.setdefault("grid_refused", []).append([name, str(g["error"][:2])[:160]])
+            continue
+        v = g["vars"]
+        bad = None
+        for key in ("poloidal_distance", "poloidal_distance_ylow"):
+            pd = v.get(key)
+            if pd is None:
+                continue
+            for rid, (sx, sy) in g["extras"]["meshmeta"]["region_indices"].items():
+                blk = pd[sx.start:sx.stop, sy.start:sy.stop]
+                d = np.diff(blk, axis=1)
+                if blk.shape[1] > 1 and not (d > 0).all():
+                    i, j = np.argwhere(~(d > 0))[0]
+                    bad = bad or (key, rid, int(sx.start + i), int(sy.start + j), float(d[i, j]))
+        if bad:
+            res.violation("grid-order:nonorth", "%s: %s decreases by %.3g from y=%d to y=%d at x=%d (region %s): the points of that flux surface are not in "
+                          "increasing poloidal order" % (name, bad[0], -bad[4], bad[3], bad[3] + 1, bad[2], bad[1]), {"spec": g["spec"]})
+        else:
+            res.traces += 1
+
+
+def check_combined(res, tier):
+    """the combined spacing function of every flux surface of a real non-orthogonal mesh (EquilibriumRegion.combineSfuncs applied to the
+    contour and its orthogonal spacing function, as MeshRegion.distributePointsNonorthogonal does): index 0 -> distance 0 and the last index
+    -> the length of *that* contour between its end points"""
+    import gridlab
+    from hypnotoad.core.mesh import Mesh
+
+    W2 = [(1.2, -0.5), (1.2, 0.5), (1.8, 0.5), (1.8, -0.5)]
+    cases = [("lsn", W2)] + ([("cdn", None)] if tier == "thorough" else [])
+    for geo, wall in cases:
+        spec = gridlab.tokamak_spec(geo, options={"orthogonal": False}, **({"wall": wall} if wall else {}))
+        try:
+            with warnings.catch_warnings(), contextlib.redirect_stdout(io.StringIO()):
+                warnings.simplefilter("ignore")
+                eq = gridlab.make_equilibrium(spec)
+                mesh = Mesh(eq, dict(spec["options"]))
+        except Exception as e:  # explicit refusal
+            res.case(key=("combined-refused", geo, type(e).__name__), nontrivial=False)
+            res.extra.setdefault("grid_refused", []).append([geo + " mesh", "%s: %s" % (type(e).__name__, str(e)[:120])])
+            continue
+        worst = 0.0
+        for mr in mesh.regions.values():
+            er = mr.equilibriumRegion
+            N = 2.0 * er.ny_noguards
+            for ic, c in enumerate(mr.contours):
+                with warnings.catch_warnings(), contextlib.redirect_stdout(io.StringIO()):
+                    warnings.simplefilter("ignore")
+                    fc = c.get_fine_contour(psi=eq.psi)
+                    d = np.array([fc.getDistance(p) for p in c])
+                    try:
+                        sf = er.combineSfuncs(c, mr.sfunc_orthogonal_list[ic])
+                    except Exception:
+                        continue
+                length = float(d[c.endInd] - d[c.startInd])
+                s0, sN = float(sf(0.0)), float(sf(N))
+                res.case(key=("combined", geo, er.name, mr.radialIndex, ic), nontrivial=True)
+                worst = max(worst, abs(sN - length))
+                if abs(s0) > 1e-8 or abs(sN - length) > 1e-5:
+                    res.violation("combined-end-values", "%s region %s(%d), contour %d of %d (%s): the combined spacing function has s(0) = %.3g and s(2 ny) = %.6f, the "
+                                  "contour's own length is %.6f" % (geo, er.name, mr.radialIndex, ic, len(mr.contours), er.kind, s0, sN, length),
+                                  {"geometry": geo, "region": er.name, "contour": ic})
+                    break
+        res.extra.setdefault("combined_end_error_m", {})[geo] = worst
+        res.traces += 1
+        import multiprocessing
+
+        for ch in multiprocessing.active_children():
+            ch.terminate()
+
+
 def check_regions(res, tier):
     """the spacing functions of real EquilibriumRegions: each end gets the spacing length its *own* kind of end asks for (a target length at
     a wall end, the X-point length at an X-point end, each with the option that belongs to that leg), for the 'monotonic' family (gradient
@@ -401,6 +486,8 @@ def run(res, tier):
     check_functions(res, r, 1600 if tier == "quick" else 60000)
     check_grids(res, tier)
     check_regions(res, tier)
+    check_order_nonorth(res, tier)
+    check_combined(res, tier)
 
 
 def replay(rep):
